@@ -69,6 +69,97 @@ def check(run, prog, tier):
     rule_B(run, prog)
     rule_C(run, prog)
     rule_D(run, prog)
+    run.rule("C01-E", "secularization is available in the operator form too: every secularize implementation converts to the "
+                      "tensor form before it looks at the data (none refuses, none reads data that do not exist yet)", minimum=3)
+    rule_E(run, prog)
+    run.rule("C01-F", "a tensor assembled from parts that can be cut off in time does not assume the parts to have its own "
+                      "number of time points", minimum=1)
+    rule_F(run, prog)
+
+
+def rule_F(run, prog):
+    """'Every relaxation tensor ... for all options (time dependent, cut-off)': a time-dependent Redfield tensor built with
+    cutoff_time has only the time points up to the cut-off.  Where another tensor class builds one with the cut-off passed
+    on and combines its data with its own array, an in-place `self.data += part.data` (or any element-wise sum with the
+    own array unsliced) requires equal shapes and fails for every cut-off shorter than the axis; the own array has to be
+    brought to the length of the part (a leading slice by part.data.shape[0])."""
+    rid = "C01-F"
+    n = 0
+    for q in ("quantarhei.qm.liouvillespace.tdredfieldfoerster.TDRedfieldFoersterRelaxationTensor",):
+        cls = prog.cls(q)
+        for fn in cls.methods.values():
+            parts = {}
+            for st in walk_no_nested(fn.node):
+                if isinstance(st, ast.Assign) and isinstance(st.value, ast.Call) and isinstance(st.targets[0], ast.Name) \
+                        and any(k.arg == "cutoff_time" for k in st.value.keywords) and (call_name(st.value) or "").startswith("TD"):
+                    parts[st.targets[0].id] = st
+            if not parts:
+                continue
+            prog.consulted.add(fn.relpath)
+            for st in walk_no_nested(fn.node):
+                val = None
+                if isinstance(st, ast.AugAssign) and norm(st.target) == "self.data":
+                    val, own_sliced = st.value, False
+                elif isinstance(st, ast.Assign) and norm(st.targets[0]) == "self.data" and isinstance(st.value, ast.BinOp):
+                    val = st.value.right
+                    l = st.value.left
+                    own_sliced = isinstance(l, ast.Subscript) and norm(l.value) == "self.data" and any(
+                        isinstance(x, ast.Name) for x in ast.walk(l.slice))
+                if val is None:
+                    continue
+                used = [p_ for p_ in parts if norm(val) == p_ + ".data"]
+                if not used:
+                    continue
+                n += 1
+                run.obligation(rid, fn.short, own_sliced, key="part-may-be-shorter:" + used[0],
+                               message="%s adds %s.data, built with the cut-off time passed on, to its own array allocated for the "
+                                       "whole time axis (%s): with a cut-off shorter than the axis the shapes differ and the tensor "
+                                       "cannot be built" % (fn.short, used[0], norm(st)[:50]), loc=fn.loc(st))
+    if n < 1:
+        raise AnalysisError("no sum of a tensor with a cut-off part found (1 confirmed)")
+
+
+def rule_E(run, prog):
+    """'Secularization keeps both identities ... for all options (time dependent, secular, operator or tensor form)'.  A
+    tensor created with as_operators=True has no data until convert_2_tensor() is called.  Each implementation of
+    secularize() that the tensor classes can reach (RelaxationTensor, TDRedfieldRelaxationTensor, the Secular mix-in)
+    therefore has, before its first read of self.data / self._data, a call self.convert_2_tensor() under a test of
+    self.as_operators, and does not raise under that test."""
+    from ..loader import parents_map
+    rid = "C01-E"
+    LSQ = "quantarhei.qm.liouvillespace."
+    n = 0
+    for q in (LSQ + "relaxationtensor.RelaxationTensor", LSQ + "tdredfieldtensor.TDRedfieldRelaxationTensor", LSQ + "secular.Secular"):
+        cls = prog.cls(q)
+        f = cls.methods.get("secularize")
+        if f is None:
+            raise AnalysisError("%s.secularize not found" % cls.name)
+        n += 1
+        prog.consulted.add(f.relpath)
+        pm = parents_map(f.node)
+        reads = sorted([x for x in walk_no_nested(f.node) if isinstance(x, ast.Attribute) and x.attr in ("data", "_data")
+                        and norm(x.value) == "self" and isinstance(x.ctx, ast.Load)], key=lambda x: (x.lineno, x.col_offset))
+        convs = [c for c in walk_no_nested(f.node) if isinstance(c, ast.Call) and norm(c.func) == "self.convert_2_tensor"]
+
+        def under_asop(node):
+            while node is not None and node is not f.node:
+                p_ = pm.get(node)
+                if isinstance(p_, ast.If) and "self.as_operators" in norm(p_.test) and any(node is b for b in p_.body):
+                    return True
+                node = p_
+            return False
+        conv_ok = [c for c in convs if under_asop(c)]
+        refuses = [r for r in walk_no_nested(f.node) if isinstance(r, ast.Raise) and under_asop(r)]
+        first_read = reads[0].lineno if reads else 10 ** 9
+        ok = bool(conv_ok) and min(c.lineno for c in conv_ok) < first_read and not refuses
+        why = "refuses the operator form (%s)" % norm(refuses[0])[:60] if refuses else (
+            "reads self.data (line %d) before / without converting from the operator form" % first_read)
+        run.obligation(rid, f.short, ok, key="operator-form-converted",
+                       message="%s %s: a tensor created with as_operators=True cannot be secularized through this "
+                               "implementation, although the sibling implementations convert it first" % (f.short, why),
+                       loc=f.loc(refuses[0] if refuses else (reads[0] if reads else f.node)))
+    if n < 3:
+        raise AnalysisError("secularize implementations: %d found (3 confirmed)" % n)
 
 
 # ----------------------------------------------------------------------
@@ -185,6 +276,13 @@ def rule_A(run, prog):
         adds = [n for n in walk_no_nested(f.node) if isinstance(n, ast.AugAssign)
                 and norm(n.target) == "self.data" and isinstance(n.op, ast.Add)]
         ok = len(adds) == 1 and norm(adds[0].value) == "RT.data"
+        if not adds:
+            # the same addition written as a rebinding: self.data = self.data[<leading part>] + RT.data
+            reb = [n for n in walk_no_nested(f.node) if isinstance(n, ast.Assign) and norm(n.targets[0]) == "self.data"
+                   and isinstance(n.value, ast.BinOp) and isinstance(n.value.op, ast.Add)]
+            ok = len(reb) == 1 and norm(reb[0].value.right) == "RT.data" and (
+                norm(reb[0].value.left) == "self.data" or (isinstance(reb[0].value.left, ast.Subscript)
+                                                           and norm(reb[0].value.left.value) == "self.data"))
         run.obligation(rid, "%s._reference_implementation:Redfield-part" % cls.name, ok,
                        key="redfield-part",
                        message="the Redfield part is no longer added as the data of one Redfield "
